@@ -80,7 +80,7 @@ class Site:
                 b = b[len(pre):]
                 break
         b = b.replace("{closure#", "c").replace("}", "")
-        ops = ",".join(sig(q.novers(o))[:70] for o in self.operands)
+        ops = ",".join(sig(q.novers(o))[:(200 if self.kind == "panic" else 70)] for o in self.operands)
         return "%s|%s|%s|%s" % (b, self.kind, self.what, ops)
 
     @property
